@@ -100,7 +100,10 @@ def lanePool : List String → String
 kinds: `NB` no body · `B` body read to EOF · `CH` chunked body read to EOF · `HD` HEAD ·
 `BX` body, caller closes early · `BK` body + `Connection: close` · `NBK` no body + close ·
 `BI` body, `CloseIdleConnections` called before the body is read to EOF · `E1`/`EX` POST with
-`Expect: 100-continue` answered by `100 Continue` + 200 / by a final 403 without 100 (keep-alive).
+`Expect: 100-continue` answered by `100 Continue` + 200 / by a final 403 without 100 (keep-alive) ·
+`NBU`/`BU` like `NB`/`B`, but the origin sends unsolicited bytes (a duplicate of the response, an
+unrequested response, garbage, half a status line) after the complete response, and the caller
+lets the read loop see them before its next request.
 Answer per request `<conn>:<reused>:<events>` (joined with `;`): conn = sequence number of the
 connection used, events = `R` response returned to the caller, `P` PutIdleConn(nil), `p`
 PutIdleConn(error), `E` caller saw EOF, `C` caller closed early — in observation order. -/
@@ -128,14 +131,17 @@ def pairReq (sim : PairSim) (r : Nat) (kind : String) : Option PairSim :=
     -- is delivered, the response is read to EOF and the connection goes back to the pool
     | "E1" => some (true, true, true, true)
     | "EX" => some (true, true, true, true)
+    | "NBU" => some (false, true, true, true)
+    | "BU" => some (true, true, true, true)
     | _ => none
+  let unsolicited := kind == "NBU" || kind == "BU"
   match spec with
   | none => none
   | some (hasBody, keep, accept, eof) =>
     -- a closed (or never available) connection is replaced by a freshly dialled one
     let (st0, conn, fresh) :=
       if sim.st.avail then (sim.st, sim.conn, sim.fresh) else ({}, sim.conn + 1, true)
-    let s1 := Req.Pool.Pairing.step st0 (.start r)
+    let s1 := Req.Pool.Pairing.step (Req.Pool.Pairing.step st0 (.start r)) .peerAnswer
     let s2 := Req.Pool.Pairing.step s1 (.readHead hasBody keep true accept)
     let s3 := if hasBody then Req.Pool.Pairing.step s2 (.bodyDone eof true accept) else s2
     -- events of this request = what was added to the log, oldest first
@@ -152,6 +158,9 @@ def pairReq (sim : PairSim) (r : Nat) (kind : String) : Option PairSim :=
       if hasBody then
         if eof then "R" ++ String.join (letters.filter (fun l => l == "P" || l == "p")) ++ "E" else "RC"
       else String.join letters
+    -- unsolicited bytes behind the response: the read loop finds them on the idle connection
+    let s3 := if unsolicited then
+        Req.Pool.Pairing.step (Req.Pool.Pairing.step s3 .peerExtra) .peekIdle else s3
     some { st := s3, conn := conn, fresh := false,
            out := (toString conn ++ ":" ++ (if fresh then "0" else "1") ++ ":" ++ evs) :: sim.out }
 
